@@ -649,8 +649,12 @@ func histCheck(prop string, keep []string, quickOps, thoroughOps int, configure 
 
 func init() {
 	Registry["C01"] = func(c *Ctx) {
-		c.R.Rule = "explicit-state breadth-first search over build histories: a state is (source toggles, workspace outputs, abstract cache content); operations = 13 source edits (append byte, move a byte from the end of one input to the start of the next, add/rename file under a glob, command change with/without output change, declared outputs, fingerprint value, fingerprint '=' shift, alias edge <-> direct edge, inputs of two other targets, platform), two workspace pre-state operations (a stale file inside a directory output, a tampered file output) and `grog build //...` / `grog build //b:top` / `grog build //...` started in the sub-directory a/src by the REAL binary on a cloned workspace+cache (every clone lives at a different absolute path); all histories of <= n operations with state de-duplication (quick: additionally all histories of <= n further operations after a first `build //...`, i.e. one operation deeper from the built state). Scripted trade histories (both load_outputs modes): two dependencies with a same-named output (cached / no-cache / through aliases) trade their inputs, the two outputs of one dependency (cached / no-cache) trade their contents: the dependant equals a from-scratch build. Scripted return histories (9 operations, one per ordered pair of 6 edits): build; edit t1; build; undo t1; build (restored from cache); edit t2; build (executes over the restored files); undo t2; build. After every build: exit 0, every declared output of every selected target equals a from-scratch build of the current sources (memoised per source state; the from-scratch build itself is checked against an absolute oracle: //b:app's output embeds the bytes of //a:lib's output, read both through $(output ...) and by path, and //b:top observed exactly that file), and no target is served from cache whose state (per a reference dictionary model) has no successful result. Non-trivial = a build with at least one cache hit and one execution."
+		c.R.Rule = "explicit-state breadth-first search over build histories: a state is (source toggles, workspace outputs, abstract cache content); operations = 13 source edits (append byte, move a byte from the end of one input to the start of the next, add/rename file under a glob, command change with/without output change, declared outputs, fingerprint value, fingerprint '=' shift, alias edge <-> direct edge, inputs of two other targets, platform), two workspace pre-state operations (a stale file inside a directory output, a tampered file output) and `grog build //...` / `grog build //b:top` / `grog build //...` started in the sub-directory a/src by the REAL binary on a cloned workspace+cache (every clone lives at a different absolute path); all histories of <= n operations with state de-duplication (quick: additionally all histories of <= n further operations after a first `build //...`, i.e. one operation deeper from the built state). Scripted trade histories (both load_outputs modes): two dependencies with a same-named output (cached / no-cache / through aliases) trade their inputs, the two outputs of one dependency (cached / no-cache) trade their contents: the dependant equals a from-scratch build. Scripted return histories (9 operations, one per ordered pair of 6 edits): build; edit t1; build; undo t1; build (restored from cache); edit t2; build (executes over the restored files); undo t2; build. After every build: exit 0, every declared output of every selected target equals a from-scratch build of the current sources (memoised per source state; the from-scratch build itself is checked against an absolute oracle: //b:app's output embeds the bytes of //a:lib's output, read both through $(output ...) and by path, and //b:top observed exactly that file), and no target is served from cache whose state (per a reference dictionary model) has no successful result. Non-trivial = a build with at least one cache hit and one execution. No-cache tool: a no-cache target whose only output is its bin_output, called by a cached dependant through $(bin :tool): build; build; edit the tool's input; build; build, both modes: the dependant re-executes exactly when the tool changed."
 		c.R.Assume("commands of the model workspace are deterministic functions of their declared inputs and dependency outputs", "the reference cache model keys on (label, command, declared outputs, fingerprint, platform, input path+content, observed dependency output contents)", "histories longer than the bound and workspaces other than the 6-target model workspace are not covered")
+		if os.Getenv("VERIF_PART") == "no-cache-tool" { // development aid: this part alone
+			noCacheTool(c, "C01")
+			return
+		}
 		histCheck("C01", []string{"C01:", "C04:build-hangs"}, 3, 5, func(e *histEngine, thorough bool) {
 			// restores happen over whatever the workspace holds: a polluted directory output and a tampered file output
 			e.preOps = []string{"add-stale-file-to-dist", "modify-lib-output"}
@@ -659,6 +663,8 @@ func init() {
 			e.returnToggles = []int{tgAppend, tgShift, tgCmdOutput, tgSharedEdit, tgAppIn, tgToolIn}
 		})(c)
 		c01TradeScenarios(c)
+		// a no-cache tool whose only changing artefact is its bin_output, called by a cached dependant
+		noCacheTool(c, "C01")
 		if !c.Thorough {
 			// quick: one operation deeper from the state after a first `build //...`
 			histCheck("C01", []string{"C01:", "C04:build-hangs"}, 3, 5, func(e *histEngine, thorough bool) {
